@@ -512,6 +512,9 @@ void tickit_window_hide(TickitWindow *win)
     }
     tickit_window_expose(parent, &win->rect);
   }
+  else if(win->is_root)
+    /* nothing gets exposed, but the cursor must go */
+    _request_restore(WINDOW_AS_ROOT(win));
 }
 
 bool tickit_window_is_visible(TickitWindow *win)
@@ -764,7 +767,7 @@ static void _do_restore(TickitRootWindow *root)
     win = win->focused_child;
   }
 
-  if(win && win->is_focused && win->cursor.visible &&
+  if(win && win->is_visible && win->is_focused && win->cursor.visible &&
      _cell_visible(win, win->cursor.line, win->cursor.col)) {
     TickitRect abs_geom = tickit_window_get_abs_geometry(win);
     int cursor_line = win->cursor.line + abs_geom.top;
